@@ -28,6 +28,11 @@ type Config struct {
 	EnumCap    int
 	MaxPaths   int
 	Params     map[string]int
+	// BoundedLoops: functions (substring of their ssa name) whose loops are known to end
+	// within the given number of iterations on every well-formed state of the harness's
+	// size; running past it is reported as a hang (the process spins, typically holding a
+	// lock), not as an unwinding failure
+	BoundedLoops map[string]int
 	MapOrder   int
 	ForkIndex  bool
 	CrossCheck bool
@@ -40,7 +45,7 @@ type Config struct {
 
 func defaultConfig() Config {
 	return Config{MaxSteps: 400000, MaxLoop: 300, MaxDepth: 200, MaxAlloc: 1 << 16, EnumCap: 256, MaxPaths: 2000000,
-		Params: map[string]int{}, Workers: 16, SolverBin: envOr("GOSYMX_SOLVER", defaultSolver()), Samples: 4}
+		Params: map[string]int{}, BoundedLoops: map[string]int{}, Workers: 16, SolverBin: envOr("GOSYMX_SOLVER", defaultSolver()), Samples: 4}
 }
 
 type Engine struct {
@@ -542,7 +547,7 @@ func (p *Path) finish(end *pathEnd, wantSample bool) {
 		}()
 	}
 	switch end.kind {
-	case "panic", "fatal", "deadlock":
+	case "panic", "fatal", "deadlock", "hang":
 		if end.kind == "panic" && p.expectPanic {
 			end.kind = "done"
 			break
